@@ -46,6 +46,14 @@ func genC08(r *core.Rng, id int) *c08Case {
 		cfg.Optional = "generic"
 	}
 	p := &Proj{ID: fmt.Sprintf("d%d", id), SchemaFiles: files, Defs: defs, Layout: gen.RandomLayout(r, len(defs), true), Cfg: cfg}
+	// the same files named one by one, or matched by one glob (the result must not depend on
+	// the order in which the file system / a Go map hands them out)
+	if r.Chance(0.5) {
+		p.SchemaGlob = "schema/*.graphql"
+	}
+	if r.Chance(0.4) {
+		p.OpsGlob = "ops/*"
+	}
 	return &c08Case{Proj: p, Schema: s, Splits: splits, Runs: 6}
 }
 
@@ -86,6 +94,22 @@ func upperFirst(s string) string {
 
 func RunC08(tier string, seed int64, outDir string, replay string) (*core.Result, error) {
 	res := core.NewResult("C08", tier, seed)
+	if replay != "" {
+		if sc := spellReplay(replay); sc != nil {
+			spellingLeg(res, "C08", seed, 1, sc)
+			return res, nil
+		}
+	}
+	defer func() {
+		if replay == "" {
+			k := 12
+			if tier == "thorough" {
+				k = 120
+			}
+			spellingLeg(res, "C08", seed, k, nil)
+			res.Rule += "; config leg: random projects with a genqlient.yaml using relative paths (schema by one glob, one operations entry per definition, the last one outside the project directory) read through ReadAndValidateConfig from 5 (working directory, config path) spellings: same acceptance, byte-identical Go and export files"
+		}
+	}()
 	res.Rule = "random projects with the schema spread over 2-4 files (enum/input `extend` blocks in other files), operations spread over several .graphql/.go files, same-named bound packages, export_operations on; each generated 6x in-process (Go randomises every map iteration) and compared byte-wise, plus the order-sensitive structure (declaration order, operation order, export order, enum value order) against the model; non-trivial = Generate succeeded; distinct by project text"
 	n := 60
 	if tier == "thorough" {
